@@ -1,7 +1,7 @@
 (* Executable reference semantics of the SQL fragment the layer generates: values with SQL NULL, three-valued expressions,
    NULL-ignoring aggregates (uninterpreted ones return the bag they are fed), grouping, ordering (NULL smallest), slicing.
    Hand-written; tied to DuckDB by the correspondence checks of C01-C08.  No proofs in this file. *)
-From Coq Require Import ZArith String List Bool.
+From Coq Require Import ZArith String Ascii List Bool.
 Import ListNotations.
 Open Scope Z_scope.
 
@@ -27,6 +27,7 @@ Inductive expr :=
 | And (a b : expr) | Or (a b : expr) | Not (a : expr) | IsNull (a : expr)
 | InList (a : expr) (vs : list val)          (* a IN (v1, ..., vn), literals only *)
 | Between (a lo hi : expr)
+| Like (a : expr) (pat : string)             (* a LIKE 'pattern' with % and _ wildcards, no escape character *)
 | CaseWhen (c t : expr).                     (* CASE WHEN c THEN t ELSE NULL END *)
 
 Definition arith (f : Z -> Z -> Z) (a b : val) : val :=
@@ -54,6 +55,18 @@ Definition or3 (a b : val) : val :=
   | _, _ => VNull end.
 Definition not3 (a : val) : val := match a with VBool b => VBool (negb b) | _ => VNull end.
 
+Fixpoint like_match (p s : string) : bool :=
+  match p with
+  | EmptyString => match s with EmptyString => true | _ => false end
+  | String c p' =>
+      if Ascii.eqb c "%"%char then
+        (fix any (s0 : string) : bool := like_match p' s0 || match s0 with EmptyString => false | String _ s1 => any s1 end) s
+      else match s with
+           | EmptyString => false
+           | String d s' => (Ascii.eqb c "_"%char || Ascii.eqb c d) && like_match p' s'
+           end
+  end.
+
 Fixpoint eval (r : row) (e : expr) : val :=
   match e with
   | Col n => nth n r VNull
@@ -68,6 +81,7 @@ Fixpoint eval (r : row) (e : expr) : val :=
   | IsNull a => VBool (is_null (eval r a))
   | InList a vs => fold_right (fun v acc => or3 (compare_val CEq (eval r a) v) acc) (VBool false) vs
   | Between a lo hi => and3 (compare_val CGe (eval r a) (eval r lo)) (compare_val CLe (eval r a) (eval r hi))
+  | Like a pat => match eval r a with VStr s => VBool (like_match pat s) | _ => VNull end
   | CaseWhen c t => if is_true (eval r c) then eval r t else VNull
   end.
 
